@@ -28,7 +28,7 @@ ASSUME = ["POD realistic-orbit tolerance: the file's 1/128-degree words carry up
           "and 0.03 + 0.033 degree; the exactly representable swaths of (B) have no such allowance",
           "pyorbital's propagation is the reference for (C)", "the flagged-line mask is the implementation's own (property C07)"]
 TB = ["coqc 8.16.1 kernel; Flocq (Reals axioms) for C06_pod_scaling_exact / C06_klm_scaling_error",
-      "translator/gen.py (Gen_Geo: AST of _get_lonlat_from_file, get_lonlat, pygac_geotiepoints; Gen_Layout field types)",
+      "translator/gen.py (Gen_Geo: probes run through _get_lonlat_from_file, get_lonlat and the interpolators; Gen_Layout field types)",
       "correspondence check_ties evaluated in Coq", "python-geotiepoints is an oracle of the model (contract: shape, tie points reproduced at their columns)"]
 
 TIE_COLS = {"gac": [4 + 8 * k for k in range(51)], "lac": [24 + 40 * k for k in range(51)]}
